@@ -55,6 +55,9 @@ func CSSRule(selector string, style Style) (StyleSheet, error) {
 	if matches := invalidCSSSelectorRune.FindStringSubmatch(selectorWithoutStrings); matches != nil {
 		return StyleSheet{}, fmt.Errorf("selector %q contains %q, which is disallowed outside of CSS strings", selector, matches[0])
 	}
+	if cssURLFunctionPattern.MatchString(selectorWithoutStrings) {
+		return StyleSheet{}, fmt.Errorf("selector %q contains \"url(\", which is disallowed", selector)
+	}
 	if !hasBalancedBrackets(selectorWithoutStrings) {
 		return StyleSheet{}, fmt.Errorf("selector %q contains unbalanced () or [] brackets", selector)
 	}
@@ -71,6 +74,11 @@ var (
 	// selector that does not contain string literals.
 	// See https://w3.org/TR/css3-selectors/#selectors.
 	invalidCSSSelectorRune = regexp.MustCompile(`[^-_a-zA-Z0-9#.:* ,>+~[\]()=^$|]`)
+
+	// cssURLFunctionPattern matches the start of a CSS url( token. Inside such a token quotes do not
+	// delimit strings (https://www.w3.org/TR/css-syntax-3/#consume-url-token), so the string-stripping
+	// done by CSSRule would disagree with a CSS tokenizer about where strings begin and end.
+	cssURLFunctionPattern = regexp.MustCompile(`(?i)url\(`)
 )
 
 // hasBalancedBrackets returns whether s has balanced () and [] brackets.
